@@ -768,7 +768,7 @@ func (r *yieldRewriter) rewriteBreakContinues(body *ast.BlockStmt) {
 		switch n := n.(type) {
 		case *ast.ForStmt, *ast.RangeStmt:
 			enterLoop(true)
-		case *ast.SwitchStmt, *ast.TypeSwitchStmt:
+		case *ast.SwitchStmt, *ast.TypeSwitchStmt, *ast.SelectStmt:
 			enterSwitch(true)
 		case *ast.FuncLit:
 			enterLoop(false)
@@ -781,7 +781,7 @@ func (r *yieldRewriter) rewriteBreakContinues(body *ast.BlockStmt) {
 		switch n := n.(type) {
 		case *ast.ForStmt, *ast.RangeStmt:
 			exitLoop()
-		case *ast.SwitchStmt, *ast.TypeSwitchStmt:
+		case *ast.SwitchStmt, *ast.TypeSwitchStmt, *ast.SelectStmt:
 			exitSwitch()
 		case *ast.FuncLit:
 			exitLoop()
